@@ -454,6 +454,48 @@ func c13SendersFor(c *Ctx, rule string) {
 				return strings.HasPrefix(k, kBlockHash+"hs/internal/proto/hotstuffpb.BlockFromProto("+bk+")")
 			})
 		if !ok {
+			// `return findReply(replies, func(b) bool { return h == BlockFromProto(b).Hash() })`: a private search helper
+			// that hands back an element only if its function parameter accepted it, called with the hash comparison
+			if ex, isEx := retValue(r, 0).(*ssa.Extract); isEx && ex.Index == 0 {
+				if call, isCall := ex.Tuple.(*ssa.Call); isCall {
+					if hf := call.Call.StaticCallee(); hf != nil && hf.Blocks != nil && funcPkgPath(hf) == funcPkgPath(qf) && hf.Object() != nil && !hf.Object().Exported() {
+						hfl := NewFlow(p, hf)
+						for i, prm := range hf.Params {
+							if _, isSig := prm.Type().Underlying().(*types.Signature); !isSig || i >= len(call.Call.Args) {
+								continue
+							}
+							accepted, nr := true, 0
+							for _, hr := range returnsOf(hf) {
+								if !hfl.Reachable(hr.Block()) || len(hr.Results) != 2 || isBoolConst(retValue(hr, 1), false) {
+									continue
+								}
+								nr++
+								rk := hfl.K.Key(retValue(hr, 0))
+								if !isBoolConst(retValue(hr, 1), true) || !trueOf(hfl.At(hr), func(k string) bool { return strings.HasPrefix(k, "dyn p"+itoa(i)+"("+rk+")") }) {
+									accepted = false
+								}
+							}
+							if !accepted || nr == 0 {
+								continue
+							}
+							pf, okP := predicateFacts(fl, call.Call.Args[i])
+							if !okP {
+								continue
+							}
+							for _, f := range pf {
+								isElemHash := func(k string) bool {
+									return strings.HasPrefix(k, kBlockHash+"hs/internal/proto/hotstuffpb.BlockFromProto(elem)")
+								}
+								if f.Op == "==" && (fromRequest(f.L) && isElemHash(f.R) || fromRequest(f.R) && isElemHash(f.L)) {
+									ok = true
+								}
+							}
+						}
+					}
+				}
+			}
+		}
+		if !ok {
 			bad = append(bad, p.Pos(r.Pos())+" returns "+bk+"; facts: "+join(facts.Sorted()))
 		}
 	}
@@ -593,6 +635,30 @@ func c13Prune(c *Ctx, prune *ssa.Function) {
 			b, ok := call.Call.Value.(*ssa.Builtin)
 			return ok && b.Name() == "delete" && strings.HasSuffix(fl.K.Key(call.Call.Args[0]), kBC+"blockAtHeight") && fl.K.Key(call.Call.Args[1]) == viewKey
 		}, nil)
+		if w != nil && viewKey != "" {
+			// the entry may be taken out of the index right after it was read, before it is judged:
+			// lookup, delete of the same view, then the report, each dominating the next
+			var lookups, deletes []ssa.Instruction
+			eachInstr(fl.Fn, func(in ssa.Instruction) {
+				switch x := in.(type) {
+				case *ssa.Lookup:
+					if strings.HasSuffix(fl.K.Key(x.X), kBC+"blockAtHeight") && fl.K.Key(x.Index) == viewKey {
+						lookups = append(lookups, in)
+					}
+				case *ssa.Call:
+					if b, ok := x.Call.Value.(*ssa.Builtin); ok && b.Name() == "delete" && strings.HasSuffix(fl.K.Key(x.Call.Args[0]), kBC+"blockAtHeight") && fl.K.Key(x.Call.Args[1]) == viewKey {
+						deletes = append(deletes, in)
+					}
+				}
+			})
+			for _, l := range lookups {
+				for _, d := range deletes {
+					if precedes(l, d) && precedes(d, ap) {
+						w = nil
+					}
+				}
+			}
+		}
 		c.Check(viewKey != "" && w == nil, "C13.5", "PruneToHeight: a reported view is removed from the index", p.InstrPos(ap),
 			"after reporting blockAtHeight[h], delete(blockAtHeight, h) runs before the next view is examined or the function returns",
 			"a reported block can stay in the per-view index and be reported again")
